@@ -276,6 +276,10 @@ pub fn include_aborting() -> bool {
 }
 
 /// All variants (variant 0 = `Protocol` included).
+pub fn g_update_add_ar(rng: &mut Rng) -> UpdatePayload { g_update_payload_variant(rng, 11) }
+
+pub fn g_update_add_ip(rng: &mut Rng) -> UpdatePayload { g_update_payload_variant(rng, 12) }
+
 pub fn g_update_payload_all(rng: &mut Rng) -> UpdatePayload {
     let variant = rng.below(UPDATE_PAYLOAD_VARIANTS);
     g_update_payload_variant(rng, variant)
@@ -376,6 +380,9 @@ pub fn subjects(v: &mut Vec<Subject>) {
     }));
     subj_wd!(v, "updates::CreatePlt", CreatePlt, g_create_plt);
     subj_wd!(v, "UpdatePayload", UpdatePayload, g_update_payload);
+    // the two updates whose body is preceded by its own byte length
+    subj_wd!(v, "UpdatePayload::AddAnonymityRevoker", UpdatePayload, g_update_add_ar);
+    subj_wd!(v, "UpdatePayload::AddIdentityProvider", UpdatePayload, g_update_add_ip);
     subj_wd!(v, "updates::UpdateHeader", UpdateHeader, g_update_header);
     subj_wd!(v, "updates::UpdateInstructionSignature", UpdateInstructionSignature, g_update_signature);
     subj_wd!(v, "updates::UpdateInstruction", UpdateInstruction, g_update_instruction);
